@@ -9,7 +9,8 @@ for d in sorted(glob.glob("/verif/seeded/*/")):
         rows.append("| %s | (not yet run through the checks) | | |" % sid)
         continue
     m = json.load(open(mp))
-    what = m.get("summary") or re.sub(r"^#\s*Seed \S+:?\s*", "", m.get("needs_to_manifest", ""))[:110]
+    what = m.get("summary") or re.sub(r"^#\s*Seed(?:ed change)? \S+:?\s*", "", m.get("needs_to_manifest", ""))
+    what = re.split(r"\s+(?:##|\*\*File)", what)[0][:140]
     rows.append("| %s | %s | %s | %s |" % (sid, what.replace("|", "/"), m.get("detected", "?"), m.get("detected_by", "").replace("|", "/")))
 table = "| seed | change | detected | by |\n|------|--------|----------|----|\n" + "\n".join(rows) + "\n"
 p = "/verif/DESIGN.md"
